@@ -248,14 +248,14 @@ class CFG:
         r = self.reach([self.entry])
         return any(n in r for n in self.nodes_of(astnode))
 
-    def every_path_to(self, targets, via, skip_exc=False):
+    def every_path_to(self, targets, via, skip_exc=False, avoid_edges=()):
         """Every path ENTRY -> (any node of targets) passes through `via`.
         Vacuously true for unreachable targets."""
         via = set(via)
-        r = self.reach([self.entry], avoid=via, skip_exc=skip_exc)
+        r = self.reach([self.entry], avoid=via, skip_exc=skip_exc, avoid_edges=avoid_edges)
         return not any(t in r for t in targets if t not in via)
 
-    def every_path_from(self, srcs, via, to=None, skip_exc=False):
+    def every_path_from(self, srcs, via, to=None, skip_exc=False, avoid_edges=()):
         """Every path from the *successors* of srcs to `to` (default: normal
         EXIT) passes through `via`."""
         via = set(via)
@@ -266,7 +266,7 @@ class CFG:
                 if skip_exc and lab == "exc":
                     continue
                 starts.add(t)
-        r = self.reach(starts, avoid=via, skip_exc=skip_exc)
+        r = self.reach(starts, avoid=via, skip_exc=skip_exc, avoid_edges=avoid_edges)
         return not (r & to)
 
     def path_exists(self, srcs, dsts, avoid=(), skip_exc=False, strict=True):
@@ -297,6 +297,21 @@ class CFG:
                 if not (targets & r):
                     test = n.ast.test if n.kind == "test" else n.ast.iter
                     out.append((n.ast, test, lab == "T"))
+        return out
+
+    def assume_edges(self, pred):
+        """Edges to drop when the tests satisfying `pred(test expr)` are
+        assumed: pred returns True/False (the assumed truth value) or None."""
+        out = set()
+        for n in self.nodes:
+            if n.kind != "test":
+                continue
+            v = pred(n.ast.test)
+            if v is None:
+                continue
+            for (t, lab) in n.succ:
+                if lab == ("F" if v else "T"):
+                    out.add((n.id, t, lab))
         return out
 
     def in_cycle(self, nid):
